@@ -14,12 +14,12 @@ PROPS = {
     "C25": dict(engine="rpcmon", race=True, level="exploration", design="C25", technique=_T,
                 text="All transmissions of a request are byte-identical in (msg id, seq no, body); at most 1+MaxRetries; none earlier than RetryInterval of fake time after its timer was armed; "
                      "RetryLimitReachedErr exactly after the last allowed unacknowledged resend; no transmission after retryUntilAck returned; a due timer always leads to a resend in settled schedules. "
-                     "Grid MaxRetries 1..6 x ack position x failing send index x clock step, acknowledgements delivered as single ids and inside msgs_ack batches of 1..6 ids (pending id first/last/middle/repeated, mixed with unknown ids and ids of other pending/acked/completed calls; empty and nil batches), failing transmission k=0..MaxRetries with a plain error, context.Canceled or DeadlineExceeded followed by clock travel past every deadline (a Do that neither re-sends nor returns within one interval of a failed transmission in a settled world is a violation), plus PCT/free schedules.",
+                     "Grid MaxRetries 1..6 x ack position x failing send index x clock step, acknowledgements delivered as single ids and inside msgs_ack batches of 1..6 ids (pending id first/last/middle/repeated, mixed with unknown ids and ids of other pending/acked/completed calls; empty and nil batches), failing transmission k=0..MaxRetries with a plain error, context.Canceled or DeadlineExceeded followed by clock travel past every deadline (a Do that neither re-sends nor returns within one interval of a failed transmission in a settled world is a violation), retransmission k blocked in a cancel-aware send when its result/error arrives (must be aborted, Do must return without waiting for the write), plus PCT/free schedules.",
                 note="A resend picked by select while an ack is delivered but not yet consumed by the Do goroutine is counted, not asserted (inherent race). neo fake clock trusted.",
                 watchdog={"quick": 600, "thorough": 3 * 3600}),
     "C26": dict(engine="rpcmon", race=True, also=[dict(engine="saltping", race=True)], level="exploration", design="C26", technique=_T,
                 text="ForceClose / cancel inserted at every position of staggered base schedules (N<=3) and enumerated/PCT/free schedules: nothing stays blocked after ForceClose (goroutine-dump verdict), "
-                     "unacknowledged calls fail with errors.Is(ErrEngineClosed), acknowledged ones never do, drop handler called exactly once iff a cancelled call's first send had succeeded, Do after close fails without sending. "
+                     "unacknowledged calls fail with errors.Is(ErrEngineClosed), acknowledged ones never do, drop handler called exactly once iff a cancelled call's first send had succeeded, Do after close fails without sending; the caller's context ends by cancel or by an expiring deadline (controller-fired context) at every insertion point, including while a retransmission is blocked in send. "
                      "Connection arm (engine saltping): K=1..4 concurrent Conn.Invoke on a real mtproto.Conn with scripted histories (none / ack consumed / bad_server_salt retry observed / retry acked / "
                      "ack then retry / cancelled before send) ended by caller cancel, Run-context cancel or a transport read error; closed+unacked -> errors.Is(ErrEngineClosed), closed+acked -> other error, "
                      "cancelled -> context.Canceled and exactly one rpc_drop_answer frame for its msg_id iff it was sent.",
